@@ -195,6 +195,14 @@ func c14Eval(sh c14Shape, g uint64) (fails [][4]interface{}, dag bool, queries i
 		fails = append(fails, [4]interface{}{"uncapped-error", fmt.Sprintf("uncapped query returned an error (%v %s)", u.capErr, u.other), 0, -1})
 		return
 	}
+	// the other entry points of the uncapped query: MaxActivationDepth() and a non-positive cap
+	if d, err := fresh.MaxActivationDepth(); err != nil || d != u.depth {
+		fails = append(fails, [4]interface{}{"entry-points-differ", fmt.Sprintf("MaxActivationDepth() = (%d, %v), MaxActivationDepthWithCap(0) = %d", d, err, u.depth), 0, -1})
+	}
+	if r := c14Query(fresh, -1); r != u {
+		fails = append(fails, [4]interface{}{"negative-cap", fmt.Sprintf("a cap of -1 (no limit) gave (%d, capErr=%v %s), the uncapped depth is %d", r.depth, r.capErr, r.other, u.depth), 0, -1})
+	}
+	queries += 2
 	ref, isDag := c14DagDepth(sh, g)
 	dag = isDag
 	if isDag {
